@@ -37,7 +37,7 @@ ASSUMPTIONS = [
 TRUSTED_BASE = ["Flocq 4 BinarySingleNaN (executable binary64 definitions; the standard real-number axioms come with it)"]
 KERNEL_SAMPLE = {"quick": 150, "thorough": 1500}
 KERNEL_MAXLEN = 160
-MANIFEST_PENDING = dict(
+MANIFEST = dict(
     text="pending",
     design="DESIGN.md section 5 C10", note="pending", technique="Rocq/Coq proof + model/implementation correspondence check")
 
